@@ -1031,6 +1031,15 @@ module Nat =
 
   let ltb n0 m =
     leb (S n0) m
+
+  (** val min : nat -> nat -> nat **)
+
+  let rec min n0 m =
+    match n0 with
+    | O -> O
+    | S n' -> (match m with
+               | O -> O
+               | S m' -> S (min n' m'))
  end
 
 module Pos =
@@ -1460,6 +1469,11 @@ module N =
     | Npos na -> (match b with
                   | N0 -> (N0, a)
                   | Npos _ -> pos_div_eucl na b)
+
+  (** val div : n -> n -> n **)
+
+  let div a b =
+    fst (div_eucl a b)
 
   (** val modulo : n -> n -> n **)
 
@@ -3177,13 +3191,13 @@ let mONTHS =
 
 (** val walk : z list -> z -> z -> z * z **)
 
-let rec walk ms rd idx =
+let rec walk ms rd0 idx =
   match ms with
-  | [] -> (idx, rd)
+  | [] -> (idx, rd0)
   | ml :: r ->
-    if Z.ltb rd ml
-    then (idx, rd)
-    else walk r (Z.sub rd ml) (Z.add idx (Zpos XH))
+    if Z.ltb rd0 ml
+    then (idx, rd0)
+    else walk r (Z.sub rd0 ml) (Z.add idx (Zpos XH))
 
 (** val civil : z -> ((z * z) * z) * z **)
 
@@ -3222,8 +3236,8 @@ let civil days =
         (Z.mul (Zpos (XO (XO (XI (XO (XO (XI XH))))))) c_cycles))
       (Z.mul (Zpos (XO (XO (XO (XO (XI (XO (XO (XI XH))))))))) qc_cycles)
   in
-  let (mon_idx, rd) = walk mONTHS remdays2 Z0 in
-  let mday = Z.add rd (Zpos XH) in
+  let (mon_idx, rd0) = walk mONTHS remdays2 Z0 in
+  let mday = Z.add rd0 (Zpos XH) in
   let mon = Z.add mon_idx (Zpos (XI XH)) in
   if Z.gtb mon (Zpos (XO (XO (XI XH))))
   then ((((Z.add year (Zpos XH)), (Z.sub mon (Zpos (XO (XO (XI XH)))))),
@@ -3938,6 +3952,12 @@ type headers = { stored : (bytes * bytes) list; content_length : n option;
 let new_headers =
   { stored = []; content_length = None; chunked = false; connection_close =
     false; print_date = true }
+
+(** val new_nodate : headers **)
+
+let new_nodate =
+  { stored = []; content_length = None; chunked = false; connection_close =
+    false; print_date = false }
 
 (** val cONTENT_LENGTH : bytes **)
 
@@ -7291,3 +7311,624 @@ let known_F21 a max_head segs1 =
   let total = concat segs1 in
   existsb (fun ri -> (&&) (negb ri.ri_readable) (negb ri.ri_reads_body))
     (req_infos (S (length total)) a max_head total O)
+
+(** val cRLF0 : bytes **)
+
+let cRLF0 =
+  X0d :: (X0a :: [])
+
+(** val digit : n -> byte **)
+
+let digit n0 =
+  n2b
+    (N.add (Npos (XO (XO (XO (XO (XI XH))))))
+      (N.modulo n0 (Npos (XO (XI (XO XH))))))
+
+(** val u16_to_ascii : n -> bytes **)
+
+let u16_to_ascii n0 =
+  (n2b
+    (N.add (Npos (XO (XO (XO (XO (XI XH))))))
+      (N.modulo (N.div n0 (Npos (XO (XO (XI (XO (XO (XI XH)))))))) (Npos (XO
+        (XO (XO (XO (XO (XO (XO (XO XH)))))))))))) :: ((n2b
+                                                         (N.add (Npos (XO (XO
+                                                           (XO (XO (XI
+                                                           XH))))))
+                                                           (N.modulo
+                                                             (N.div n0 (Npos
+                                                               (XO (XI (XO
+                                                               XH))))) (Npos
+                                                             (XO (XI (XO
+                                                             XH))))))) :: (
+    (n2b
+      (N.add (Npos (XO (XO (XO (XO (XI XH))))))
+        (N.modulo n0 (Npos (XO (XI (XO XH))))))) :: (X20 :: [])))
+
+(** val dec_digits : nat -> n -> bytes -> bytes **)
+
+let rec dec_digits fuel n0 acc =
+  match fuel with
+  | O -> acc
+  | S f ->
+    if N.eqb n0 N0
+    then acc
+    else dec_digits f (N.div n0 (Npos (XO (XI (XO XH))))) ((digit n0) :: acc)
+
+(** val u64_to_ascii : n -> bytes **)
+
+let u64_to_ascii n0 =
+  if N.eqb n0 N0
+  then X30 :: []
+  else dec_digits (S (S (S (S (S (S (S (S (S (S (S (S (S (S (S (S (S (S (S (S
+         O)))))))))))))))))))) n0 []
+
+(** val hexdigit_upper : n -> byte **)
+
+let hexdigit_upper d =
+  if N.ltb d (Npos (XO (XI (XO XH))))
+  then n2b (N.add (Npos (XO (XO (XO (XO (XI XH)))))) d)
+  else n2b (N.add (Npos (XI (XI (XI (XO (XI XH)))))) d)
+
+(** val hex_digits : nat -> n -> bytes -> bytes **)
+
+let rec hex_digits fuel n0 acc =
+  match fuel with
+  | O -> acc
+  | S f ->
+    if N.eqb n0 N0
+    then acc
+    else hex_digits f (N.div n0 (Npos (XO (XO (XO (XO XH))))))
+           ((hexdigit_upper (N.modulo n0 (Npos (XO (XO (XO (XO XH))))))) :: acc)
+
+(** val hex_upper : n -> bytes **)
+
+let hex_upper n0 =
+  if N.eqb n0 N0
+  then X30 :: []
+  else hex_digits (S (S (S (S (S (S (S (S (S (S (S (S (S (S (S (S
+         O)))))))))))))))) n0 []
+
+(** val status_line : n -> bytes -> bytes **)
+
+let status_line code reason =
+  app
+    (bs (String ((Ascii (false, false, false, true, false, false, true,
+      false)), (String ((Ascii (false, false, true, false, true, false, true,
+      false)), (String ((Ascii (false, false, true, false, true, false, true,
+      false)), (String ((Ascii (false, false, false, false, true, false,
+      true, false)), (String ((Ascii (true, true, true, true, false, true,
+      false, false)), (String ((Ascii (true, false, false, false, true, true,
+      false, false)), (String ((Ascii (false, true, true, true, false, true,
+      false, false)), (String ((Ascii (true, false, false, false, true, true,
+      false, false)), (String ((Ascii (false, false, false, false, false,
+      true, false, false)), EmptyString)))))))))))))))))))
+    (app (u16_to_ascii code) (app reason cRLF0))
+
+(** val header_lines : headers -> bytes **)
+
+let header_lines h =
+  flat_map (fun nv ->
+    app (fst nv)
+      (app
+        (bs (String ((Ascii (false, true, false, true, true, true, false,
+          false)), (String ((Ascii (false, false, false, false, false, true,
+          false, false)), EmptyString))))) (app (snd nv) cRLF0))) h.stored
+
+(** val head_fields : headers -> bytes -> bytes **)
+
+let head_fields h date =
+  app (header_lines h) (if h.print_date then date else [])
+
+(** val content_length_header : n -> bytes **)
+
+let content_length_header n0 =
+  app
+    (bs (String ((Ascii (true, true, false, false, false, true, true,
+      false)), (String ((Ascii (true, true, true, true, false, true, true,
+      false)), (String ((Ascii (false, true, true, true, false, true, true,
+      false)), (String ((Ascii (false, false, true, false, true, true, true,
+      false)), (String ((Ascii (true, false, true, false, false, true, true,
+      false)), (String ((Ascii (false, true, true, true, false, true, true,
+      false)), (String ((Ascii (false, false, true, false, true, true, true,
+      false)), (String ((Ascii (true, false, true, true, false, true, false,
+      false)), (String ((Ascii (false, false, true, true, false, true, true,
+      false)), (String ((Ascii (true, false, true, false, false, true, true,
+      false)), (String ((Ascii (false, true, true, true, false, true, true,
+      false)), (String ((Ascii (true, true, true, false, false, true, true,
+      false)), (String ((Ascii (false, false, true, false, true, true, true,
+      false)), (String ((Ascii (false, false, false, true, false, true, true,
+      false)), (String ((Ascii (false, true, false, true, true, true, false,
+      false)), (String ((Ascii (false, false, false, false, false, true,
+      false, false)), EmptyString)))))))))))))))))))))))))))))))))
+    (u64_to_ascii n0)
+
+(** val chunk : bytes -> bytes **)
+
+let chunk data =
+  app (hex_upper (N.of_nat (length data))) (app cRLF0 (app data cRLF0))
+
+(** val lAST_CHUNK : bytes **)
+
+let lAST_CHUNK =
+  app
+    (bs (String ((Ascii (false, false, false, false, true, true, false,
+      false)), EmptyString))) (app cRLF0 cRLF0)
+
+(** val iNLINE_COPY_MAX : nat **)
+
+let iNLINE_COPY_MAX =
+  S (S (S (S (S (S (S (S (S (S (S (S (S (S (S (S (S (S (S (S (S (S (S (S (S
+    (S (S (S (S (S (S (S (S (S (S (S (S (S (S (S (S (S (S (S (S (S (S (S (S
+    (S (S (S (S (S (S (S (S (S (S (S (S (S (S (S (S (S (S (S (S (S (S (S (S
+    (S (S (S (S (S (S (S (S (S (S (S (S (S (S (S (S (S (S (S (S (S (S (S (S
+    (S (S (S (S (S (S (S (S (S (S (S (S (S (S (S (S (S (S (S (S (S (S (S (S
+    (S (S (S (S (S (S (S (S (S (S (S (S (S (S (S (S (S (S (S (S (S (S (S (S
+    (S (S (S (S (S (S (S (S (S (S (S (S (S (S (S (S (S (S (S (S (S (S (S (S
+    (S (S (S (S (S (S (S (S (S (S (S (S (S (S (S (S (S (S (S (S (S (S (S (S
+    (S (S (S (S (S (S (S (S (S (S (S (S (S (S (S (S (S (S (S (S (S (S (S (S
+    (S (S (S (S (S (S (S (S (S (S (S (S (S (S (S (S (S (S (S (S (S (S (S (S
+    (S (S (S (S (S (S (S (S (S (S (S (S (S (S (S (S (S (S (S (S (S (S (S (S
+    (S (S (S (S (S (S (S (S (S (S (S (S (S (S (S (S (S (S (S (S (S (S (S (S
+    (S (S (S (S (S (S (S (S (S (S (S (S (S (S (S (S (S (S (S (S (S (S (S (S
+    (S (S (S (S (S (S (S (S (S (S (S (S (S (S (S (S (S (S (S (S (S (S (S (S
+    (S (S (S (S (S (S (S (S (S (S (S (S (S (S (S (S (S (S (S (S (S (S (S (S
+    (S (S (S (S (S (S (S (S (S (S (S (S (S (S (S (S (S (S (S (S (S (S (S (S
+    (S (S (S (S (S (S (S (S (S (S (S (S (S (S (S (S (S (S (S (S (S (S (S (S
+    (S (S (S (S (S (S (S (S (S (S (S (S (S (S (S (S (S (S (S (S (S (S (S (S
+    (S (S (S (S (S (S (S (S (S (S (S (S (S (S (S (S (S (S (S (S (S (S (S (S
+    (S (S (S (S (S (S (S (S (S (S (S (S (S (S (S (S (S (S (S (S (S (S (S (S
+    (S (S (S (S (S (S (S (S (S (S (S (S (S (S (S (S (S (S (S (S (S (S (S (S
+    (S (S (S (S (S (S (S (S (S (S (S (S (S (S (S (S (S (S (S (S (S (S (S (S
+    (S (S (S (S (S (S (S (S (S (S (S (S (S (S (S (S (S (S (S (S (S (S (S (S
+    (S (S (S (S (S (S (S (S (S (S (S (S (S (S (S (S (S (S (S (S (S (S (S (S
+    (S (S (S (S (S (S (S (S (S (S (S (S (S (S (S (S (S (S (S (S (S (S (S (S
+    (S (S (S (S (S (S (S (S (S (S (S (S (S (S (S (S (S (S (S (S (S (S (S (S
+    (S (S (S (S (S (S (S (S (S (S (S (S (S (S (S (S (S (S (S (S (S (S (S (S
+    (S (S (S (S (S (S (S (S (S (S (S (S (S (S (S (S (S (S (S (S (S (S (S (S
+    (S (S (S (S (S (S (S (S (S (S (S (S (S (S (S (S (S (S (S (S (S (S (S (S
+    (S (S (S (S (S (S (S (S (S (S (S (S (S (S (S (S (S (S (S (S (S (S (S (S
+    (S (S (S (S (S (S (S (S (S (S (S (S (S (S (S (S (S (S (S (S (S (S (S (S
+    (S (S (S (S (S (S (S (S (S (S (S (S (S (S (S (S (S (S (S (S (S (S (S (S
+    (S (S (S (S (S (S (S (S (S (S (S (S (S (S (S (S (S (S (S (S (S (S (S (S
+    (S (S (S (S (S (S (S (S (S (S (S (S (S (S (S (S (S (S (S (S (S (S (S (S
+    (S (S (S (S (S (S (S (S (S (S (S (S (S (S (S (S (S (S (S (S (S (S (S (S
+    (S (S (S (S (S (S (S (S (S (S (S (S (S (S (S (S (S (S (S (S (S (S (S (S
+    (S (S (S (S (S (S (S (S (S (S (S (S (S (S (S (S (S (S (S (S (S (S (S (S
+    (S (S (S (S (S (S (S (S (S (S (S (S (S (S (S (S (S (S (S (S (S (S (S (S
+    (S (S (S (S (S (S (S (S (S (S (S (S (S (S (S (S (S (S (S (S (S (S (S (S
+    (S (S (S (S (S (S (S (S (S (S (S (S (S (S (S (S (S (S (S (S (S (S (S (S
+    (S (S (S (S (S (S (S (S (S (S (S (S (S (S (S (S (S (S (S (S (S (S (S (S
+    (S (S (S (S (S (S (S (S (S (S (S (S (S (S (S (S (S (S (S (S (S (S (S (S
+    (S (S (S (S (S (S (S (S (S (S (S (S (S (S (S (S (S (S (S (S (S (S (S (S
+    (S (S (S (S (S (S (S (S (S (S (S (S (S (S (S (S (S (S (S (S (S (S (S (S
+    (S (S (S (S (S (S (S (S (S (S (S (S (S (S (S (S (S (S (S (S (S (S (S (S
+    (S (S (S (S (S (S (S (S (S (S (S (S (S (S (S (S (S (S (S (S (S (S (S (S
+    (S (S (S (S (S (S (S (S (S (S (S (S (S (S (S (S (S (S (S (S (S (S (S (S
+    (S (S (S (S (S (S (S (S (S (S (S (S (S (S (S (S (S (S (S (S (S (S (S (S
+    (S (S (S (S (S (S (S (S (S (S (S (S (S (S (S (S (S (S (S (S (S (S (S (S
+    (S (S (S (S (S (S (S (S (S (S (S (S (S (S (S (S (S (S (S (S (S (S (S (S
+    (S (S (S (S (S (S (S (S (S (S (S (S (S (S (S (S (S (S (S (S (S (S (S (S
+    (S (S (S (S (S (S (S (S (S (S (S (S (S (S (S (S (S (S (S (S (S (S (S (S
+    (S (S (S (S (S (S (S (S (S (S (S (S (S (S (S (S (S (S (S (S (S (S (S (S
+    (S (S (S (S (S (S (S (S (S (S (S (S (S (S (S (S (S (S (S (S (S (S (S (S
+    (S (S (S (S (S (S (S (S (S (S (S (S (S (S (S (S (S (S (S (S (S (S (S (S
+    (S (S (S (S (S (S (S (S (S (S (S (S (S (S (S (S (S (S (S (S (S (S (S (S
+    (S (S (S (S (S (S (S (S (S (S (S (S (S (S (S (S (S (S (S (S (S (S (S (S
+    (S (S (S (S (S (S (S (S (S (S (S (S (S (S (S (S (S (S (S (S (S (S (S (S
+    (S (S (S (S (S (S (S (S (S (S (S (S (S (S (S (S (S (S (S (S (S (S (S (S
+    (S (S (S (S (S (S (S (S (S (S (S (S (S (S (S (S (S (S (S (S (S (S (S (S
+    (S (S (S (S (S (S (S (S (S (S (S (S (S (S (S (S (S (S (S (S (S (S (S (S
+    (S (S (S (S (S (S (S (S (S (S (S (S (S (S (S (S (S (S (S (S (S (S (S (S
+    (S (S (S (S (S (S (S (S (S (S (S (S (S (S (S (S (S (S (S (S (S (S (S (S
+    (S (S (S (S (S (S (S (S (S (S (S (S (S (S (S (S (S (S (S (S (S (S (S (S
+    (S (S (S (S (S (S (S (S (S (S (S (S (S (S (S (S (S (S (S (S (S (S (S (S
+    (S (S (S (S (S (S (S (S (S (S (S (S (S (S (S (S (S (S (S (S (S (S (S (S
+    (S (S (S (S (S (S (S (S (S (S (S (S (S (S (S (S (S (S (S (S (S (S (S (S
+    (S (S (S (S (S (S (S (S (S (S (S (S (S (S (S (S (S (S (S (S (S (S (S (S
+    (S (S (S (S (S (S (S (S (S (S (S (S (S (S (S (S (S (S (S (S (S (S (S (S
+    (S (S (S (S (S (S (S (S (S (S (S (S (S (S (S (S (S (S (S (S (S (S (S (S
+    (S (S (S (S (S (S (S (S (S (S (S (S (S (S (S (S (S (S (S (S (S (S (S (S
+    (S (S (S (S (S (S (S (S (S (S (S (S (S (S (S (S (S (S (S (S (S (S (S (S
+    (S (S (S (S (S (S (S (S (S (S (S (S (S (S (S (S (S (S (S (S (S (S (S (S
+    (S (S (S (S (S (S (S (S (S (S (S (S (S (S (S (S (S (S (S (S (S (S (S (S
+    (S (S (S (S (S (S (S (S (S (S (S (S (S (S (S (S (S (S (S (S (S (S (S (S
+    (S (S (S (S (S (S (S (S (S (S (S (S (S (S (S (S (S (S (S (S (S (S (S (S
+    (S (S (S (S (S (S (S (S (S (S (S (S (S (S (S (S (S (S (S (S (S (S (S (S
+    (S (S (S (S (S (S (S (S (S (S (S (S (S (S (S (S (S (S (S (S (S (S (S (S
+    (S (S (S (S (S (S (S (S (S (S (S (S (S (S (S (S (S (S (S (S (S (S (S (S
+    (S (S (S (S (S (S (S (S (S (S (S (S (S (S (S (S (S (S (S (S (S (S (S (S
+    (S (S (S (S (S (S (S (S (S (S (S (S (S (S (S (S (S (S (S (S (S (S (S (S
+    (S (S (S (S (S (S (S (S (S (S (S (S (S (S (S (S (S (S (S (S (S (S (S (S
+    (S (S (S (S (S (S (S (S (S (S (S (S (S (S (S (S (S (S (S (S (S (S (S (S
+    (S (S (S (S (S (S (S (S (S (S (S (S (S (S (S (S (S (S (S (S (S (S (S (S
+    (S (S (S (S (S (S (S (S (S (S (S (S (S (S (S (S (S (S (S (S (S (S (S (S
+    (S (S (S (S (S (S (S
+    O)))))))))))))))))))))))))))))))))))))))))))))))))))))))))))))))))))))))))))))))))))))))))))))))))))))))))))))))))))))))))))))))))))))))))))))))))))))))))))))))))))))))))))))))))))))))))))))))))))))))))))))))))))))))))))))))))))))))))))))))))))))))))))))))))))))))))))))))))))))))))))))))))))))))))))))))))))))))))))))))))))))))))))))))))))))))))))))))))))))))))))))))))))))))))))))))))))))))))))))))))))))))))))))))))))))))))))))))))))))))))))))))))))))))))))))))))))))))))))))))))))))))))))))))))))))))))))))))))))))))))))))))))))))))))))))))))))))))))))))))))))))))))))))))))))))))))))))))))))))))))))))))))))))))))))))))))))))))))))))))))))))))))))))))))))))))))))))))))))))))))))))))))))))))))))))))))))))))))))))))))))))))))))))))))))))))))))))))))))))))))))))))))))))))))))))))))))))))))))))))))))))))))))))))))))))))))))))))))))))))))))))))))))))))))))))))))))))))))))))))))))))))))))))))))))))))))))))))))))))))))))))))))))))))))))))))))))))))))))))))))))))))))))))))))))))))))))))))))))))))))))))))))))))))))))))))))))))))))))))))))))))))))))))))))))))))))))))))))))))))))))))))))))))))))))))))))))))))))))))))))))))))))))))))))))))))))))))))))))))))))))))))))))))))))))))))))))))))))))))))))))))))))))))))))))))))))))))))))))))))))))))))))))))))))))))))))))))))))))))))))))))))))))))))))))))))))))))))))))))))))))))))))))))))))))))))))))))))))))))))))))))))))))))))))))))))))))))))))))))))))))))))))))))))))))))))))))))))))))))))))))))))))))))))))))))))))))))))))))))))))))))))))))))))))))))))))))))))))))))))))))))))))))))))))))))))))))))))))))))))))))))))))))))))))))))))))))))))))))))))))))))))))))))))))))))))))))))))))))))))))))))))))))))))))))))))))))))))))))))))))))))))))))))))))))))))))))))))))))))))))))))))))))))))))))))))))))))))))))))))))))))))))))))))))))))))))))))))))))))))))))))))))))))))))))))))))))))))))))))))))))))))))))))))))))))))))))))))))))))))))))))))))))))))))))))))))))))))))))))))))))))))))))))))))))))))))))))))))))))))))))))))))))))))))))))))))))))))))))))))))))))))))))))))))))))))))))))))))))))))))))))))
+
+(** val write_vectored_bytes : bytes -> bytes -> nat -> bytes **)
+
+let write_vectored_bytes head0 body0 accepted =
+  if Nat.ltb (length body0) iNLINE_COPY_MAX
+  then app head0 body0
+  else let n0 = Nat.min accepted (add (length head0) (length body0)) in
+       app (firstn n0 (app head0 body0))
+         (if Nat.ltb n0 (length head0)
+          then app (skipn n0 head0) body0
+          else skipn (sub n0 (length head0)) body0)
+
+type reader = bytes list
+
+(** val rd : nat -> reader -> bytes * reader **)
+
+let rec rd k = function
+| [] -> ([], [])
+| p :: rest ->
+  (match p with
+   | [] -> rd k rest
+   | _ :: _ ->
+     (match skipn k p with
+      | [] -> ((firstn k p), rest)
+      | b :: l -> ((firstn k p), ((b :: l) :: rest))))
+
+(** val take_all : nat -> nat -> reader -> bytes -> bytes * reader **)
+
+let rec take_all fuel limit r acc =
+  match fuel with
+  | O -> (acc, r)
+  | S f ->
+    if Nat.eqb limit O
+    then (acc, r)
+    else let (out, r') = rd limit r in
+         (match out with
+          | [] -> (acc, r')
+          | _ :: _ -> take_all f (sub limit (length out)) r' (app acc out))
+
+(** val pROBE_MAX : nat **)
+
+let pROBE_MAX =
+  N.to_nat (Npos (XO (XO (XO (XO (XO (XO (XO (XO (XO (XO (XO (XO (XO
+    XH))))))))))))))
+
+(** val probe_body : nat -> reader -> bytes -> (bytes * bool) * reader **)
+
+let rec probe_body fuel r acc =
+  match fuel with
+  | O -> ((acc, false), r)
+  | S f ->
+    if Nat.leb pROBE_MAX (length acc)
+    then ((acc, false), r)
+    else let (out, r') = rd (sub pROBE_MAX (length acc)) r in
+         (match out with
+          | [] -> ((acc, true), r')
+          | _ :: _ -> probe_body f r' (app acc out))
+
+(** val cHUNK_BUF : nat **)
+
+let cHUNK_BUF =
+  N.to_nat (Npos (XO (XO (XO (XO (XO (XO (XO (XO (XO (XO (XO (XO (XO (XO (XO
+    (XO (XO XH))))))))))))))))))
+
+(** val write_chunked : nat -> reader -> bytes **)
+
+let rec write_chunked fuel r =
+  match fuel with
+  | O -> lAST_CHUNK
+  | S f ->
+    let (out, r') = rd cHUNK_BUF r in
+    (match out with
+     | [] -> lAST_CHUNK
+     | _ :: _ -> app (chunk out) (write_chunked f r'))
+
+(** val reader_fuel : reader -> nat **)
+
+let reader_fuel r =
+  S (add (length r) (length (concat r)))
+
+type wres =
+| WOk of bytes
+| WErr of bytes
+
+(** val write_response_empty : n -> bytes -> headers -> bytes -> wres **)
+
+let write_response_empty code reason h date =
+  WOk
+    (app (status_line code reason)
+      (app (head_fields h date)
+        (if h.chunked
+         then app cRLF0 lAST_CHUNK
+         else app
+                (bs (String ((Ascii (true, true, false, false, false, true,
+                  true, false)), (String ((Ascii (true, true, true, true,
+                  false, true, true, false)), (String ((Ascii (false, true,
+                  true, true, false, true, true, false)), (String ((Ascii
+                  (false, false, true, false, true, true, true, false)),
+                  (String ((Ascii (true, false, true, false, false, true,
+                  true, false)), (String ((Ascii (false, true, true, true,
+                  false, true, true, false)), (String ((Ascii (false, false,
+                  true, false, true, true, true, false)), (String ((Ascii
+                  (true, false, true, true, false, true, false, false)),
+                  (String ((Ascii (false, false, true, true, false, true,
+                  true, false)), (String ((Ascii (true, false, true, false,
+                  false, true, true, false)), (String ((Ascii (false, true,
+                  true, true, false, true, true, false)), (String ((Ascii
+                  (true, true, true, false, false, true, true, false)),
+                  (String ((Ascii (false, false, true, false, true, true,
+                  true, false)), (String ((Ascii (false, false, false, true,
+                  false, true, true, false)), (String ((Ascii (false, true,
+                  false, true, true, true, false, false)), (String ((Ascii
+                  (false, false, false, false, false, true, false, false)),
+                  (String ((Ascii (false, false, false, false, true, true,
+                  false, false)),
+                  EmptyString)))))))))))))))))))))))))))))))))))
+                (app cRLF0 cRLF0))))
+
+(** val write_response_bytes :
+    n -> bytes -> headers -> bytes -> bytes -> nat -> wres **)
+
+let write_response_bytes code reason h date body0 accepted =
+  let head0 = app (status_line code reason) (head_fields h date) in
+  if h.chunked
+  then WOk
+         (app head0
+           (app cRLF0
+             (app (match body0 with
+                   | [] -> []
+                   | _ :: _ -> chunk body0) lAST_CHUNK)))
+  else WOk
+         (write_vectored_bytes
+           (app head0
+             (app (content_length_header (N.of_nat (length body0)))
+               (app cRLF0 cRLF0))) body0 accepted)
+
+(** val with_body : bytes -> headers -> bytes -> reader -> nat -> wres **)
+
+let with_body start h date r accepted =
+  let fields = head_fields h date in
+  if h.chunked
+  then WOk
+         (app start
+           (app fields (app cRLF0 (write_chunked (reader_fuel r) r))))
+  else (match h.content_length with
+        | Some cl ->
+          if N.leb cl (N.of_nat pROBE_MAX)
+          then let (buf, _) = take_all (reader_fuel r) (N.to_nat cl) r [] in
+               WOk
+               (write_vectored_bytes
+                 (app start
+                   (app fields
+                     (app (content_length_header cl) (app cRLF0 cRLF0)))) buf
+                 accepted)
+          else let head0 =
+                 app start
+                   (app fields
+                     (app (content_length_header cl) (app cRLF0 cRLF0)))
+               in
+               let (data, _) = take_all (reader_fuel r) (N.to_nat cl) r [] in
+               if N.eqb (N.of_nat (length data)) cl
+               then WOk (app head0 data)
+               else WErr (app head0 data)
+        | None ->
+          let (p, r') = probe_body (reader_fuel r) r [] in
+          let (prefix, complete) = p in
+          if complete
+          then WOk
+                 (write_vectored_bytes
+                   (app start
+                     (app fields
+                       (app
+                         (content_length_header (N.of_nat (length prefix)))
+                         (app cRLF0 cRLF0)))) prefix accepted)
+          else WOk
+                 (app start
+                   (app fields
+                     (app
+                       (bs (String ((Ascii (false, false, true, false, true,
+                         true, true, false)), (String ((Ascii (false, true,
+                         false, false, true, true, true, false)), (String
+                         ((Ascii (true, false, false, false, false, true,
+                         true, false)), (String ((Ascii (false, true, true,
+                         true, false, true, true, false)), (String ((Ascii
+                         (true, true, false, false, true, true, true,
+                         false)), (String ((Ascii (false, true, true, false,
+                         false, true, true, false)), (String ((Ascii (true,
+                         false, true, false, false, true, true, false)),
+                         (String ((Ascii (false, true, false, false, true,
+                         true, true, false)), (String ((Ascii (true, false,
+                         true, true, false, true, false, false)), (String
+                         ((Ascii (true, false, true, false, false, true,
+                         true, false)), (String ((Ascii (false, true, true,
+                         true, false, true, true, false)), (String ((Ascii
+                         (true, true, false, false, false, true, true,
+                         false)), (String ((Ascii (true, true, true, true,
+                         false, true, true, false)), (String ((Ascii (false,
+                         false, true, false, false, true, true, false)),
+                         (String ((Ascii (true, false, false, true, false,
+                         true, true, false)), (String ((Ascii (false, true,
+                         true, true, false, true, true, false)), (String
+                         ((Ascii (true, true, true, false, false, true, true,
+                         false)), (String ((Ascii (false, true, false, true,
+                         true, true, false, false)), (String ((Ascii (false,
+                         false, false, false, false, true, false, false)),
+                         (String ((Ascii (true, true, false, false, false,
+                         true, true, false)), (String ((Ascii (false, false,
+                         false, true, false, true, true, false)), (String
+                         ((Ascii (true, false, true, false, true, true, true,
+                         false)), (String ((Ascii (false, true, true, true,
+                         false, true, true, false)), (String ((Ascii (true,
+                         true, false, true, false, true, true, false)),
+                         (String ((Ascii (true, false, true, false, false,
+                         true, true, false)), (String ((Ascii (false, false,
+                         true, false, false, true, true, false)),
+                         EmptyString)))))))))))))))))))))))))))))))))))))))))))))))))))))
+                       (app cRLF0
+                         (app cRLF0
+                           (app (chunk prefix)
+                             (write_chunked (reader_fuel r') r'))))))))
+
+(** val write_response :
+    n -> bytes -> headers -> bytes -> reader -> nat -> wres **)
+
+let write_response code reason h date r accepted =
+  with_body (status_line code reason) h date r accepted
+
+(** val write_request :
+    bytes -> bytes -> headers -> bytes -> reader -> nat -> wres **)
+
+let write_request method1 uri0 h date r accepted =
+  with_body
+    (app method1
+      (app (X20 :: [])
+        (app uri0
+          (app (X20 :: [])
+            (app
+              (bs (String ((Ascii (false, false, false, true, false, false,
+                true, false)), (String ((Ascii (false, false, true, false,
+                true, false, true, false)), (String ((Ascii (false, false,
+                true, false, true, false, true, false)), (String ((Ascii
+                (false, false, false, false, true, false, true, false)),
+                (String ((Ascii (true, true, true, true, false, true, false,
+                false)), (String ((Ascii (true, false, false, false, true,
+                true, false, false)), (String ((Ascii (false, true, true,
+                true, false, true, false, false)), (String ((Ascii (true,
+                false, false, false, true, true, false, false)),
+                EmptyString))))))))))))))))) cRLF0))))) h date r accepted
+
+type message = { m_start : bytes; m_fields : (bytes * bytes) list;
+                 m_body : bytes; m_rest : bytes }
+
+(** val dec_fields : nat -> bytes -> ((bytes * bytes) list * bytes) option **)
+
+let rec dec_fields fuel l =
+  match fuel with
+  | O -> None
+  | S f ->
+    (match line_crlf l with
+     | Some p ->
+       let (o, rest) = p in
+       (match o with
+        | Some line ->
+          (match line with
+           | [] -> Some ([], rest)
+           | _ :: _ ->
+             (match find_index (eqb0 X3a) line with
+              | Some i ->
+                (match dec_fields f rest with
+                 | Some p0 ->
+                   let (fs, rest') = p0 in
+                   Some ((((firstn i line),
+                   (strip_ows (skipn (S i) line))) :: fs), rest')
+                 | None -> None)
+              | None -> None))
+        | None -> None)
+     | None -> None)
+
+(** val is_name : bytes -> (bytes * bytes) -> bool **)
+
+let is_name n0 f =
+  same_name (fst f) n0
+
+(** val decode_msg : bytes -> message option **)
+
+let decode_msg l =
+  match line_crlf l with
+  | Some p ->
+    let (o, r1) = p in
+    (match o with
+     | Some start ->
+       (match dec_fields (S (length r1)) r1 with
+        | Some p0 ->
+          let (fs, r2) = p0 in
+          let cls =
+            filter
+              (is_name
+                (bs (String ((Ascii (true, true, false, false, false, true,
+                  true, false)), (String ((Ascii (true, true, true, true,
+                  false, true, true, false)), (String ((Ascii (false, true,
+                  true, true, false, true, true, false)), (String ((Ascii
+                  (false, false, true, false, true, true, true, false)),
+                  (String ((Ascii (true, false, true, false, false, true,
+                  true, false)), (String ((Ascii (false, true, true, true,
+                  false, true, true, false)), (String ((Ascii (false, false,
+                  true, false, true, true, true, false)), (String ((Ascii
+                  (true, false, true, true, false, true, false, false)),
+                  (String ((Ascii (false, false, true, true, false, true,
+                  true, false)), (String ((Ascii (true, false, true, false,
+                  false, true, true, false)), (String ((Ascii (false, true,
+                  true, true, false, true, true, false)), (String ((Ascii
+                  (true, true, true, false, false, true, true, false)),
+                  (String ((Ascii (false, false, true, false, true, true,
+                  true, false)), (String ((Ascii (false, false, false, true,
+                  false, true, true, false)),
+                  EmptyString)))))))))))))))))))))))))))))) fs
+          in
+          let tes =
+            filter
+              (is_name
+                (bs (String ((Ascii (false, false, true, false, true, true,
+                  true, false)), (String ((Ascii (false, true, false, false,
+                  true, true, true, false)), (String ((Ascii (true, false,
+                  false, false, false, true, true, false)), (String ((Ascii
+                  (false, true, true, true, false, true, true, false)),
+                  (String ((Ascii (true, true, false, false, true, true,
+                  true, false)), (String ((Ascii (false, true, true, false,
+                  false, true, true, false)), (String ((Ascii (true, false,
+                  true, false, false, true, true, false)), (String ((Ascii
+                  (false, true, false, false, true, true, true, false)),
+                  (String ((Ascii (true, false, true, true, false, true,
+                  false, false)), (String ((Ascii (true, false, true, false,
+                  false, true, true, false)), (String ((Ascii (false, true,
+                  true, true, false, true, true, false)), (String ((Ascii
+                  (true, true, false, false, false, true, true, false)),
+                  (String ((Ascii (true, true, true, true, false, true, true,
+                  false)), (String ((Ascii (false, false, true, false, false,
+                  true, true, false)), (String ((Ascii (true, false, false,
+                  true, false, true, true, false)), (String ((Ascii (false,
+                  true, true, true, false, true, true, false)), (String
+                  ((Ascii (true, true, true, false, false, true, true,
+                  false)), EmptyString)))))))))))))))))))))))))))))))))))) fs
+          in
+          (match cls with
+           | [] ->
+             (match tes with
+              | [] -> None
+              | te :: l0 ->
+                (match l0 with
+                 | [] ->
+                   if same_name (snd te)
+                        (bs (String ((Ascii (true, true, false, false, false,
+                          true, true, false)), (String ((Ascii (false, false,
+                          false, true, false, true, true, false)), (String
+                          ((Ascii (true, false, true, false, true, true,
+                          true, false)), (String ((Ascii (false, true, true,
+                          true, false, true, true, false)), (String ((Ascii
+                          (true, true, false, true, false, true, true,
+                          false)), (String ((Ascii (true, false, true, false,
+                          false, true, true, false)), (String ((Ascii (false,
+                          false, true, false, false, true, true, false)),
+                          EmptyString)))))))))))))))
+                   then (match spec_decode r2 with
+                         | Valid (body0, rest) ->
+                           Some { m_start = start; m_fields = fs; m_body =
+                             body0; m_rest = rest }
+                         | _ -> None)
+                   else None
+                 | _ :: _ -> None))
+           | cl :: l0 ->
+             (match l0 with
+              | [] ->
+                (match tes with
+                 | [] ->
+                   (match cl_value (snd cl) with
+                    | Some n0 ->
+                      (match take_n n0 r2 with
+                       | Some p1 ->
+                         let (body0, rest) = p1 in
+                         Some { m_start = start; m_fields = fs; m_body =
+                         body0; m_rest = rest }
+                       | None -> None)
+                    | None -> None)
+                 | _ :: _ -> None)
+              | _ :: _ -> None))
+        | None -> None)
+     | None -> None)
+  | None -> None
